@@ -24,7 +24,8 @@ def jobs(tier):
                 continue
             groups = [("plain", [dict(guard=None), dict(guard=None, ignore=True)])]
             if heavy and tier == "quick":
-                groups = [("plain", [dict(guard=None)])]
+                groups = [("plain", [dict(guard=None), dict(guard=None, ignore=True)])] if "rshift" not in e.tags else \
+                    [("plain", [dict(guard=None)])]
             if not heavy:
                 groups.append(("guard", [dict(guard="sym"), dict(guard="sym", ignore=True)]))
             if n == 4 and ((("comp" in e.tags or "sel" in e.tags or "arr" in e.tags) and tier == "thorough") or
